@@ -22,7 +22,7 @@ theorem ufSolveSched_nil : ufSolveSched (fun _ _ => []) = ufSolve := rfl
 
 /-- the contract `UfValidOn` holds for the model on every closed graph, for every schedule -/
 theorem ufSolveSched_contract (sched : Mat → Vec → List (List Int)) (H : Mat)
-    (hC : closedGraph H = true) : UfValidOn (ncols H) (ufSolveSched sched) H := by
+    (hC : closedMultigraph H = true) : UfValidOn (ncols H) (ufSolveSched sched) H := by
   intro sy ⟨v, hv, hsy⟩
   subst hsy
   obtain ⟨c, hc, hlen, hbin, hsyn, _⟩ := decodeWith_total hC v hv (sched H (sectorSyndrome H v))
@@ -33,7 +33,7 @@ theorem ufSolveSched_contract (sched : Mat → Vec → List (List Int)) (H : Mat
 /-- `UnionFindDecoder.decode(measure_syndrome(e))` for a CSS matrix whose two sector matrices are
     closed graphs on `n` qubits, under any schedule -/
 theorem ufDecode_sched_valid (sched : Mat → Vec → List (List Int)) (H : Mat) (n : Nat)
-    (hcss : isCss H = true) (hz : closedGraph (Hz H) = true) (hx : closedGraph (Hx H) = true)
+    (hcss : isCss H = true) (hz : closedMultigraph (Hz H) = true) (hx : closedMultigraph (Hx H) = true)
     (hnz : ncols (Hz H) = n) (hnx : ncols (Hx H) = n) (e : Vec) (he : e.length = 2 * n) :
     ∃ c ev, ufDecode (ufSolveSched sched) H n (measureSyndrome H e) = .ok (c, ev) ∧
       c.length = 2 * n ∧ (∀ x ∈ c, x < 2) ∧ measureSyndrome H c = measureSyndrome H e := by
